@@ -106,7 +106,19 @@ OneInit ==
                           ELSE InnerEntries(sname, n, state, deepok))
                       \o DeepEntries(sname, state), {})
 
-MCInit == (CoInit \/ OneInit) /\ VInitRest
+\* an inner step whose NAME climbs out of the dedicated sub-directory ("../in1"): the link that would satisfy
+\* it lies in the parent's directory, the sub-directory itself holds nothing for that step
+DotDotInit ==
+  \E up \in {"../in1", "./../in1", "x/../../in1"} :
+     ~Deep /\ scn = Build(Top1("s1"), Own("o1"),
+                   <<Entry(<< >>, "s1", "k1",
+                           LayoutD(<<GoodSig("k1")>>, 1000, <<"k3", "k2">>,
+                                   <<StepD(up, <<"k3">>, 1, << >>, <<Simple("ALLOW", <<"*">>)>>)>>, << >>)),
+                     Entry(<< >>, "in1", "k3", InnerLink(1, "k3", TRUE)),
+                     Entry(<<"s1.k1">>, "zz", "k3", [InnerLink(1, "k3", TRUE) EXCEPT !.name = "zz"]),
+                     Entry(<<"s1.k1", "x">>, "zz", "k3", [InnerLink(1, "k3", TRUE) EXCEPT !.name = "zz"])>>, {})
+
+MCInit == (CoInit \/ OneInit \/ DotDotInit) /\ VInitRest
 
 MCSpec == MCInit /\ [][VNext]_vars
 Emit == EmitAs("C15")
